@@ -94,7 +94,9 @@ theorem provideRegister_inv {st : St} (hg : GT st) (hb : OB st) (ctx : Ctx) (fn 
     (target : Nat) (params : List Param) (results : List RSlot) (n : Nat) (w : St)
     (h : provideRegister ctx fn st i s o = .ok (target, params, results, n, w)) :
     GT w ∧ OB w ∧ target = (if o.export_ then St.root else s) ∧ w.scopes.length = st.scopes.length ∧
-    w.subscopes target = st.subscopes target := by
+    w.subscopes target = st.subscopes target ∧
+    n = st.ctors.length ∧ w.ctors.length = st.ctors.length + 1 ∧ (w.ctor n).s = target ∧ (w.ctor n).fn = fn ∧
+    Work st w target := by
   unfold provideRegister at h
   cases hnf : fn.nonfunc with
   | some _ => rw [hnf] at h; cases h
@@ -141,7 +143,18 @@ theorem provideRegister_inv {st : St} (hg : GT st) (hb : OB st) (ctx : Ctx) (fn 
             have hlen3 : (St.newGraphNode { w1 with ctors := w1.ctors ++ [node] } tg (.ctor w1.ctors.length)).scopes.length = w1.scopes.length := by
               rw [newGraphNode_eq]
               exact (foldGhStep_facts (.ctor w1.ctors.length) _ { w1 with ctors := w1.ctors ++ [node] }).1
-            generalize (St.newGraphNode { w1 with ctors := w1.ctors ++ [node] } tg (.ctor w1.ctors.length)) = w3 at h hw3 hg3 hb3 hmem hsub hlen3
+            have hc1 : w1.ctors = st.ctors := by
+              have := ghOnly_parseParams ctx.env st tg fn
+              rw [hpp] at this; exact this.1.symm
+            obtain ⟨hd1, hd2⟩ := newGraphNode_ctorDesc { w1 with ctors := w1.ctors ++ [node] } tg (.ctor w1.ctors.length)
+            have hnode0 : ({ w1 with ctors := w1.ctors ++ [node] } : St).ctor w1.ctors.length = node := by
+              show (w1.ctors ++ [node]).getD w1.ctors.length default = node
+              rw [getD_append_fresh]; simp
+            have hdesc3 := hd2 w1.ctors.length
+            rw [hnode0] at hdesc3
+            have hcl3 : (St.newGraphNode { w1 with ctors := w1.ctors ++ [node] } tg (.ctor w1.ctors.length)).ctors.length = st.ctors.length + 1 := by
+              rw [hd1]; simp [hc1]
+            generalize (St.newGraphNode { w1 with ctors := w1.ctors ++ [node] } tg (.ctor w1.ctors.length)) = w3 at h hw3 hg3 hb3 hmem hsub hlen3 hdesc3 hcl3
             cases hvk : visitKeys (w3.scope tg) (slotResults rs) [] with
             | error e3 => rw [hvk] at h; cases h
             | ok keys =>
@@ -181,7 +194,8 @@ theorem provideRegister_inv {st : St} (hg : GT st) (hb : OB st) (ctx : Ctx) (fn 
                 refine ⟨⟨hg3.gm.addProviders hg3.tree tg w1.ctors.length (k0 :: ks)
                       (fun sc hsc hlt => hmem sc (by rw [← hsub]; exact hsc) (by rw [← hlen3]; exact hlt)),
                    hg3.tree.transfer (by simp [St.modScope]) (fun j => by rw [scope_modScope]; split <;> exact ⟨rfl, rfl⟩)⟩,
-                  hb3.modScope tg _ (fun _ => rfl), rfl, hw4.len, hw4.subscopes⟩
+                  hb3.modScope tg _ (fun _ => rfl), rfl, hw4.len, hw4.subscopes, by rw [hc1], by simpa [St.modScope] using hcl3,
+                  hdesc3.2.2, hdesc3.1, hw4⟩
 
 end Dig
 
@@ -198,7 +212,7 @@ theorem provide_rejects_dependency_cycle {st : St} (hg : GT st) (hb : OB st) (ct
     (hc : DepChain w sc (a :: l)) (hclosed : (a :: l).getLast (by simp) = a) :
     ∃ e, (apiProvide ctx fn st i s o).2.v = .err e ∧ e.isCycleDetected = true ∧
       EqButVerified st (apiProvide ctx fn st i s o).1 := by
-  obtain ⟨hgw, hbw, htg, hlen, hsub⟩ := provideRegister_inv hg hb ctx fn i s o target params results n w hreg
+  obtain ⟨hgw, hbw, htg, hlen, hsub, _, _, _, _, _⟩ := provideRegister_inv hg hb ctx fn i s o target params results n w hreg
   obtain ⟨path, hcyc⟩ := cycle_is_found hgw.gm hbw sc (by rw [hlen]; exact hlt) a l hl hin hc hclosed
   rw [apiProvide_eq]
   unfold apiProvide'
@@ -274,5 +288,121 @@ theorem invoke_rejects_dependency_cycle {st : St} (hg : GT st) (hb : OB st) (ctx
     unfold invokeCheck
     rw [if_neg (by rw [hunv]; simp), hcyc]
     exact ⟨_, rfl, by simp [DErr.isCycleDetected, DErr.chain], rfl⟩
+
+end Dig
+
+namespace Dig
+
+theorem provideRegister_error_verdict (ctx : Ctx) (fn : Fn) (st : St) (i s : Nat) (o : ProvideOpts) (r : St × RegRes)
+    (h : provideRegister ctx fn st i s o = .error r) : ∃ e, r.2.v = .err e := by
+  unfold provideRegister at h
+  cases hnf : fn.nonfunc with
+  | some _ => rw [hnf] at h; simp only at h; injection h with h; subst h; exact ⟨_, rfl⟩
+  | none =>
+    rw [hnf] at h
+    simp only at h
+    cases hv : validateOpts ctx.env o with
+    | error e' => rw [hv] at h; simp only at h; injection h with h; subst h; exact ⟨_, rfl⟩
+    | ok as =>
+      rw [hv] at h
+      simp only at h
+      cases hpp : Dig.parseParams ctx.env st (if o.export_ then St.root else s) fn with
+      | mk r1 w1 =>
+        rw [hpp] at h
+        cases r1 with
+        | error e1 => simp only at h; injection h with h; subst h; exact ⟨_, rfl⟩
+        | ok ps =>
+          simp only at h
+          cases hr : newResultList ctx.env { name := o.name, group := o.group, as := as } fn with
+          | error e2 => rw [hr] at h; simp only at h; injection h with h; subst h; exact ⟨_, rfl⟩
+          | ok rs =>
+            rw [hr] at h
+            simp only at h
+            split at h
+            · injection h with h; subst h; exact ⟨_, rfl⟩
+            · injection h with h; subst h; exact ⟨_, rfl⟩
+            · cases h
+
+/-- an accepted Provide: the registration stage succeeded, the verification loop passed, and the container is the
+    verified one with the constructor entered into `nodes` -/
+theorem apiProvide_ok_shape (ctx : Ctx) (fn : Fn) (st : St) (i s : Nat) (o : ProvideOpts)
+    (hok : (apiProvide ctx fn st i s o).2.v = .ok) :
+    ∃ target params results n w w5, provideRegister ctx fn st i s o = .ok (target, params, results, n, w) ∧
+      Dig.verifyScopes ctx.cfg (st.subscopes target) w = (.ok (), w5) ∧
+      (apiProvide ctx fn st i s o).1 = w5.modScope target fun x => { x with nodes := x.nodes ++ [n] } := by
+  rw [apiProvide_eq] at hok ⊢
+  unfold apiProvide' at hok ⊢
+  cases hreg : provideRegister ctx fn st i s o with
+  | error r =>
+    rw [hreg] at hok
+    obtain ⟨e, he⟩ := provideRegister_error_verdict ctx fn st i s o r hreg
+    simp only at hok
+    rw [he] at hok; cases hok
+  | ok t =>
+    obtain ⟨target, params, results, n, w⟩ := t
+    rw [hreg] at hok
+    simp only at hok ⊢
+    unfold provideVerify at hok ⊢
+    cases hvs : Dig.verifyScopes ctx.cfg (st.subscopes target) w with
+    | mk r5 w5 =>
+      rw [hvs] at hok
+      cases r5 with
+      | ok u => exact ⟨target, params, results, n, w, w5, rfl, hvs, rfl⟩
+      | error ec =>
+        obtain ⟨sc, r⟩ := ec
+        cases r <;> (simp only at hok; cases hok)
+
+/-- **the constructor of an accepted Provide is registered in the scope it was provided to, or in the root if it was
+    provided with `Export(true)`**, whatever scope the call was made on; its dependencies are resolved from the scope of
+    the call (`origS`) -/
+theorem apiProvide_ok_home {st : St} (hg : GT st) (hb : OB st) (ctx : Ctx) (fn : Fn) (i s : Nat) (o : ProvideOpts)
+    (hok : (apiProvide ctx fn st i s o).2.v = .ok) :
+    (apiProvide ctx fn st i s o).1.ctors.length = st.ctors.length + 1 ∧
+    ((apiProvide ctx fn st i s o).1.ctor st.ctors.length).s = (if o.export_ then St.root else s) ∧
+    ((apiProvide ctx fn st i s o).1.ctor st.ctors.length).fn = fn := by
+  obtain ⟨target, params, results, n, w, w5, hreg, hvs, hfin⟩ := apiProvide_ok_shape ctx fn st i s o hok
+  obtain ⟨_, _, htg, _, _, hn, hcl, hs, hfn, _⟩ := provideRegister_inv hg hb ctx fn i s o target params results n w hreg
+  have hgs := graphSame_verifyScopes ctx.cfg (st.subscopes target) w
+  rw [hvs] at hgs
+  simp only at hgs
+  rw [hfin]
+  have e : ∀ j, (w5.modScope target fun x => { x with nodes := x.nodes ++ [n] }).ctor j = w.ctor j := by
+    intro j; show w5.ctors.getD j default = w.ctors.getD j default; rw [← hgs.1]
+  subst hn
+  refine ⟨by show w5.ctors.length = _; rw [← hgs.1]; exact hcl, by rw [e, hs, htg], by rw [e, hfn]⟩
+
+end Dig
+
+namespace Dig
+
+theorem provideRegister_error_len (ctx : Ctx) (fn : Fn) (st : St) (i s : Nat) (o : ProvideOpts) (r : St × RegRes)
+    (h : provideRegister ctx fn st i s o = .error r) : r.1.ctors.length ≤ st.ctors.length := by
+  unfold provideRegister at h
+  cases hnf : fn.nonfunc with
+  | some _ => rw [hnf] at h; simp only at h; injection h with h; subst h; exact Nat.le_refl _
+  | none =>
+    rw [hnf] at h
+    simp only at h
+    cases hv : validateOpts ctx.env o with
+    | error e' => rw [hv] at h; simp only at h; injection h with h; subst h; exact Nat.le_refl _
+    | ok as =>
+      rw [hv] at h
+      simp only at h
+      cases hpp : Dig.parseParams ctx.env st (if o.export_ then St.root else s) fn with
+      | mk r1 w1 =>
+        rw [hpp] at h
+        cases r1 with
+        | error e1 => simp only at h; injection h with h; subst h; simp [rollbackProvide, List.length_take]; exact Nat.min_le_left _ _
+        | ok ps =>
+          simp only at h
+          cases hr : newResultList ctx.env { name := o.name, group := o.group, as := as } fn with
+          | error e2 => rw [hr] at h; simp only at h; injection h with h; subst h; simp [rollbackProvide, List.length_take]; exact Nat.min_le_left _ _
+          | ok rs =>
+            rw [hr] at h
+            simp only at h
+            split at h
+            · injection h with h; subst h; simp [rollbackProvide, List.length_take]; exact Nat.min_le_left _ _
+            · injection h with h; subst h; simp [rollbackProvide, List.length_take]; exact Nat.min_le_left _ _
+            · cases h
 
 end Dig
